@@ -25,6 +25,7 @@ META = {
         "double border <=> final, highlighted nodes == {current state}; both readings must agree. "
         ""
         "one DotGraphMachine object kept over the instance's life / fresh per picture / sm._graph(). "
+        "The guard text of an edge must MEAN the declared guards (truth table), guards by function object or joined expression. "
         "distinct_nontrivial = distinct machine shapes (states, edge multiset, finals, internal, guards) "
         "with an internal transition, a final state or parallel edges."
     ),
